@@ -262,12 +262,14 @@ func (s *Solver) Check(assertions []*Term, wantModel bool, extraVars []*Term) (R
 		// plain incremental core is orders of magnitude slower on these BV problems
 		fmt.Fprintf(&s.buf, "(check-sat-using (try-for default %d))\n", s.TimeoutMs)
 	}
-	s.send(s.buf.String())
-	res := Unknown
-	s.LastErr = ""
+	// the watchdog covers sending as well: a solver that is slow to read (huge terms)
+	// blocks the write
 	proc := s.cmd.Process
 	wd := time.AfterFunc(time.Duration(s.TimeoutMs+15000)*time.Millisecond, func() { proc.Kill() })
 	defer wd.Stop()
+	s.send(s.buf.String())
+	res := Unknown
+	s.LastErr = ""
 	for {
 		l, err := s.readLine()
 		if err != nil {
